@@ -169,6 +169,28 @@ def run(ctx):
                 if isinstance(te, tuple) and te[0] == "binop" and te[1] in ("Le", "Lt", "Gt", "Ge") and desc_mentions(te, lambda d: d[0] == "const" and ("1_usize" in d[1] or "2_usize" in d[1])):
                     ok = True
     ctx.require(ok, "R-C09-3", "guarded-division", "the 1/(n-1) scale is computed only after the n <= 1 test", "the 1/(n-1) scale is not guarded by a test of n", loc_str(dc.span))
+    # ... and that test is true for n = 0 and n = 1 ONLY: "for n >= 2, degree_centrality is degree/(n-1)".  The guard is
+    # evaluated as a function of the node count over n = 0..6 (arithmetic of the description tree, nothing is run)
+    from engines import eval_over_count
+    import panic as _panic
+
+    def _is_count(d_):
+        return isinstance(d_, tuple) and d_[0] == "call" and ((d_[1].split("::")[-1] == "len" and desc_mentions(d_, lambda x: x[0] == "call" and x[1].split("::")[-1] in ("get_all_nodes", "get_all_node_names"))) or d_[1].split("::")[-1] == "number_of_nodes")
+
+    for s in dc.stmts():
+        if s.k == "assign" and s.rv.k == "binop" and s.rv.j["op"] == "Div":
+            for (te, v, a) in controlling_atoms(df, s.bb):
+                if not (isinstance(te, tuple) and desc_mentions(_panic.norm(_panic.expand_names(df, te)), _is_count)):
+                    continue
+                table = {}
+                for n_ in range(0, 7):
+                    r_ = eval_over_count(df, _panic.norm(te), n_, _is_count)
+                    table[n_] = None if r_ is None else (bool(r_) == bool(v))
+                if None in table.values():
+                    ctx.undecided("R-C09-3", "guard-exact", "the guard of the 1/(n-1) scale is not an arithmetic function of the node count that can be tabulated: %s" % (fmt_desc(te),), loc_str(s.span))
+                else:
+                    want_ = {n_: n_ >= 2 for n_ in range(0, 7)}
+                    ctx.require(table == want_, "R-C09-3", "guard-exact", "the general formula degree/(n-1) is used exactly for n >= 2", "the general formula degree/(n-1) is used for n in %s, not exactly for n >= 2: for n = %s degree_centrality returns the constant of the degenerate case instead" % (sorted(k_ for k_, x_ in table.items() if x_), sorted(k_ for k_ in table if table[k_] != want_[k_])), loc_str(s.span))
 
     # ------------------------------------------------------------------ R-C09-5
     degrees_from_edge_lists(ctx, prog, flows, "R-C09-5", None, "parallel edges are not counted/summed individually")
